@@ -59,6 +59,10 @@ pub fn cmd_strategy() -> BoxedStrategy<Cmd> {
             if kind != Kind::Flush && kind.is_mutation() {
                 c.cas = cas;
             }
+            if kind == Kind::Flush {
+                // immediate, or delayed far beyond anything the (fixed or real) clock reaches during a run
+                c.ttl = [0u32, 0, 600, 3000][(flags % 4) as usize];
+            }
             if matches!(kind, Kind::Incr | Kind::Decr) {
                 c.delta = delta;
                 c.initial = initial;
@@ -308,6 +312,47 @@ pub fn run_case(case: &PipeCase, prop: &'static str) -> CaseReport {
         }
     };
     let finish = if case.quit_pos().is_some() { Finish::Eof } else { Finish::Sentinel };
+    // the last request must be answered without any further input (the sentinel would otherwise push a
+    // held-back request through): checked on a separate connection for pipelines ending in a loud command
+    if prop == "C12" && case.quit_pos().is_none() {
+        if let Some(PItem::Cmd(lc)) = case.items.last() {
+            if !lc.quiet && !frames.is_empty() {
+                let last_idx = (frames.len() - 1) as u32;
+                if let Ok(mut c) = crate::l3::Client::connect(server.port) {
+                    let mut ok_sent = true;
+                    for ch in &chunks {
+                        if c.send_chunk(ch, Duration::from_secs(5)) != crate::l3::Drain::Drained {
+                            ok_sent = false;
+                            break;
+                        }
+                    }
+                    if ok_sent {
+                        let mut answered = c.read_until(Duration::from_secs(3), |c| c.has_opaque(last_idx));
+                        if !answered && !(c.eof || c.reset) {
+                            answered = c.read_until(Duration::from_secs(3), |c| c.has_opaque(last_idx));
+                        }
+                        if !answered && !(c.eof || c.reset) {
+                            rep.fail = Some(FailInfo {
+                                clause: "answered_only_after_more_input".into(),
+                                msg: format!(
+                                    "the last request of the pipeline ({}, opaque {}) was completely sent but not answered within 6 s while the connection stayed open: it is held back until further bytes arrive",
+                                    lc.short(),
+                                    last_idx
+                                ),
+                                signature: "answered_only_after_more_input".into(),
+                                detail: json!({"stream_hex": wire::compact_hex(&stream), "cuts": cuts}),
+                            });
+                            c.reset_close();
+                            return rep;
+                        }
+                    }
+                    c.reset_close();
+                    // the side connection executed the pipeline once: start from a clean store for the judged run
+                    let _ = server.side_exec(&wire::flush(wire::FLUSH, None, 0));
+                }
+            }
+        }
+    }
     let run = match netpipe::run_connection(&server, &chunks, finish, Duration::from_secs(5)) {
         Ok(r) => r,
         Err(e) => {
@@ -398,6 +443,12 @@ pub fn check(ctx: &mut Ctx) -> i32 {
         write_evidence(ctx, &acc, RULE, ASSUME, 1);
         print_summary(ctx, &acc);
         return EXIT_VIOLATION;
+    }
+    if let Some(code) = crate::props::l3phases::active_connection_phase(ctx, &acc, false) {
+        if code != EXIT_OK {
+            write_evidence(ctx, &acc, RULE, ASSUME, 1);
+            return code;
+        }
     }
     if let Some(code) = crate::props::l3phases::backpressure_phase(ctx, &acc, prop) {
         if code != EXIT_OK {
